@@ -93,7 +93,7 @@ def make_targets(size, rng):
     return ts
 
 
-def c17_history(bins, beh, hist, size, rng):
+def c17_history(bins, beh, hist, size, rng, sweep=False):
     targets = make_targets(size, rng)
     fx = fixture.Fixture(bins, targets)
     ev = [{"ev": "reset", "beh": beh, "size": size}]
@@ -210,6 +210,27 @@ def c17_history(bins, beh, hist, size, rng):
                 use(next_api())
                 if rng.random() < 0.3:
                     use(next_api())
+        if sweep and generated:
+            # every offset of the generated file, one at a time, from the pristine state (Tamper, UseApi, Restore)
+            for rr in list(dirty):
+                dirty[rr].clear()
+                apply(rr)
+            pr = pristine["gen"]
+            st = os.stat(gen_path)
+            for o in range(0, len(pr), 1 if len(pr) <= 3000 else max(1, len(pr) // 600)):
+                b = bytearray(pr)
+                b[o] = 0x09 if b[o] == 0x20 else (b[o] ^ 0x01)
+                with open(gen_path, "wb") as fh:
+                    fh.write(bytes(b))
+                os.utime(gen_path, ns=(st.st_atime_ns, st.st_mtime_ns))
+                ev.append({"ev": "tamper", "file": "gen", "region": "o%d" % o})
+                dirty["gen"] = {"o%d" % o}
+                use("target_show")
+                with open(gen_path, "wb") as fh:
+                    fh.write(pr)
+                dirty["gen"] = set()
+                ev.append({"ev": "restore", "file": "gen", "region": "o%d" % o})
+            use("analyze")
         return ev
     finally:
         fx.cleanup()
@@ -329,6 +350,46 @@ def c18_generate(bins, idx, targets, rng):
         fx.cleanup()
 
 
+def c18_race(bins, idx, targets, rng, rounds):
+    """The configuration file is atomically replaced (write temp, rename) by other serialisations of the same value
+    while APIs run: every invocation must succeed with the same output - an atomic replacement is never half-visible."""
+    import threading
+    fx = fixture.Fixture(bins, targets)
+    try:
+        fx.git_init()
+        cfg = fx.config()
+        sers = [t for _n, t in serialisations(cfg, rng)][:6]
+        stop = [False]
+        def flipper():
+            k = 0
+            while not stop[0]:
+                tmp = fx.cfg_path + ".tmp%d" % (k % 2)
+                with open(tmp, "w") as fh:
+                    fh.write(sers[k % len(sers)])
+                os.rename(tmp, fx.cfg_path)
+                k += 1
+        th = threading.Thread(target=flipper, daemon=True)
+        th.start()
+        styles = []
+        try:
+            for i in range(rounds):
+                r = fx.monorail(["target", "show", "-g"] if i % 2 else ["config", "show"])
+                o = r["out"]
+                if isinstance(o, dict):
+                    o = dict(o); o.pop("timestamp", None)
+                styles.append({"style": "concurrent_replace#%d" % i, "size": 0, "rc": abs(r["rc"] or 0),
+                               "digest": ("g" if i % 2 else "c") + hashlib.sha256(json.dumps(o, sort_keys=True).encode()).hexdigest()[:18]})
+        finally:
+            stop[0] = True
+            th.join(timeout=10)
+        # two APIs alternate: judge them as two records
+        a = {"ev": "c18", "value": idx, "ntargets": len(targets), "styles": styles[0::2]}
+        b = {"ev": "c18", "value": idx, "ntargets": len(targets), "styles": styles[1::2]}
+        return a, b
+    finally:
+        fx.cleanup()
+
+
 def run(pid, tier):
     level = "model_checking" if pid == "C17" else "exploration"
     chk = vlib.Check(pid, tier, level)
@@ -356,8 +417,11 @@ def run(pid, tier):
         sizes = ["small", "medium", "large"]
         jobs = [(i, [{"a": "generate"}] + h, sizes[i % 3]) for i, h in enumerate(behs)]
         jobs += [(len(behs) + j, systematic, s) for j, s in enumerate(sizes)]
+        jobs.append((len(jobs), [{"a": "generate"}], "small", "sweep"))
+        if tier == "thorough":
+            jobs.append((len(jobs), [{"a": "generate"}], "medium", "sweep"))
         def one(j):
-            return c17_history(bins, j[0], j[1], j[2], random.Random(chk.seed * 11 + j[0]))
+            return c17_history(bins, j[0], j[1], j[2], random.Random(chk.seed * 11 + j[0]), sweep=(len(j) > 3))
         with ThreadPoolExecutor(max_workers=10) as ex:
             traces = list(ex.map(one, jobs))
         clean = [[{k: v for k, v in e.items() if k not in ("size", "err")} for e in t] for t in traces]
@@ -408,6 +472,8 @@ def run(pid, tier):
         values += [(g, "generate") for g in gen_values]
         with ThreadPoolExecutor(max_workers=8) as ex:
             res = list(ex.map(one, enumerate(values)))
+        ra, rb = c18_race(bins, len(res), values[0][0], random.Random(chk.seed), 120 if tier == "quick" else 1500)
+        res += [(ra, None), (rb, None)]
         recs = [[{"ev": "reset", "beh": i}, r[0]] for i, r in enumerate(res)]
         fails, st, tr = vlib.judge_traces("ConfigJudge", recs, shards=min(4, len(recs)))
         grecs = [r[1] for r in res if r[1] is not None]
